@@ -492,6 +492,10 @@ pub fn run_campaign<P: Property>(prop: &P, tier: Tier, seed: u64) -> i32 {
             for w in 0..workers {
                 let slots = &slots;
                 let done = &done;
+                let journal = std::env::var("VERIF_JOURNAL").ok().map(PathBuf::from);
+                if let Some(d) = journal.as_ref() {
+                    let _ = std::fs::create_dir_all(d);
+                }
                 let remaining = &remaining;
                 let known = &known;
                 let stop = &stop;
@@ -556,6 +560,12 @@ pub fn run_campaign<P: Property>(prop: &P, tier: Tier, seed: u64) -> i32 {
                                 return Ok(());
                             }
                             *slots[w].lock().unwrap() = Some((Instant::now(), case.clone()));
+                            if let Some(dir) = journal.as_ref() {
+                                // debugging aid for failures which kill the process (stack overflow, abort): the
+                                // case in flight on every worker is on disk
+                                let doc = json!({"property": id, "case": serde_json::to_value(&case).unwrap(), "failure": {"sig": "in-flight", "msg": "case in flight when the process died"}});
+                                let _ = std::fs::write(dir.join(format!("w{w}.json")), doc.to_string());
+                            }
                             let v = judge(prop, &case);
                             *slots[w].lock().unwrap() = None;
                             if *failed.borrow() {
